@@ -59,7 +59,7 @@ def tsFeeds (s : TsSt) (bufs : List (List Nat)) : TsSt × List FrameOut × Optio
   bufs.foldl (fun (acc : TsSt × List FrameOut × Option Err) b =>
     match acc with
     | (s, fr, some e) => (s, fr, some e)
-    | (s, fr, none) => let r := tsFeed s b; (r.st, fr ++ r.frames, r.err)) (s, [], none)
+    | (s, fr, none) => let r := tsFeed SrcCfg.current s b; (r.st, fr ++ r.frames, r.err)) (s, [], none)
 
 def pesCors (s : St) (bufs : List (List Nat)) : St × List FrameOut × Option Err :=
   bufs.foldl (fun (acc : St × List FrameOut × Option Err) b =>
@@ -72,7 +72,7 @@ def tsCors (s : TsSt) (bufs : List (List Nat)) : TsSt × List FrameOut × Option
   bufs.foldl (fun (acc : TsSt × List FrameOut × Option Err) b =>
     match acc with
     | (s, fr, some e) => (s, fr, some e)
-    | (s, fr, none) => let r := tsCorDrain (2 * b.length + 4) demuxCorSkipsEmptyFrame 0 s b 0 64
+    | (s, fr, none) => let r := tsCorDrain SrcCfg.current (2 * b.length + 4) SrcCfg.current.corSkipsEmpty 0 s b 0 64
                        (r.st, fr ++ r.frames, if r.stalled then some (.assertFail "cor_livelock") else r.err)) (s, [], none)
 
 def outLine (fr : List FrameOut) (e : Option Err) : String :=
